@@ -295,10 +295,24 @@ func (c *cluster) apply(a vAct) {
 				c.fail("restart", "restart-failed/"+keyOfErr(err), "node %d failed to restart from its directory image: %v", a.N, err)
 			}
 		}
+	case "heldsnap":
+		if n := c.up(a.N); n != nil {
+			c.setHold(a.N, "snap.begin")
+			c.submitTask(n, "snap", TakeSnapshot(uint64(a.K)))
+		}
 	case "hold":
 		c.setHold(a.N, a.S)
 	case "unhold":
 		c.releaseHold(a.N, a.S)
+	case "unholdall":
+		c.releaseAllHolds()
+	case "probe":
+		if n := c.up(a.N); n != nil {
+			id, cmd := c.newCmd(4)
+			c.probe = c.submitFSM(n, "upd", UpdateFSM(cmd), id)
+		}
+	case "checkconv":
+		c.checkConverged()
 	case "nop":
 	default:
 		panic("unknown action " + a.A)
@@ -390,4 +404,88 @@ func (c *cluster) collectInfos() {
 			c.onInfo(n, info)
 		}
 	}
+}
+
+// checkConverged: bounded-liveness oracle evaluated after the closing phase
+// (network healed, every node restarted, 40 s of virtual time = 20..40 election
+// timeouts, then a probe update and 10 more seconds).
+func (c *cluster) checkConverged() {
+	l := c.led
+	if l.lastCommittedCfg == nil {
+		return
+	}
+	cfg := *l.lastCommittedCfg
+	upVoters, voters := 0, 0
+	for id, nd := range cfg.Nodes {
+		if nd.Voter {
+			voters++
+			if c.up(id) != nil {
+				upVoters++
+			}
+		}
+	}
+	if upVoters < voters/2+1 {
+		c.stats.class("conv-no-majority-up")
+		return
+	}
+	var ldr *simNode
+	nl := 0
+	for _, id := range c.upIDs() {
+		n := c.nodes[id]
+		if n.r.state == Leader {
+			if _, member := n.r.configs.Latest.Nodes[id]; member {
+				ldr = n
+				nl++
+			}
+		}
+	}
+	if nl == 0 {
+		// Known design corner (KNOWN_FINDINGS, C17): a voter of the committed
+		// configuration whose own latest, uncommitted configuration excludes it
+		// never campaigns, yet it can hold the longest log and refuse its vote.
+		for id, nd := range cfg.Nodes {
+			n := c.up(id)
+			if n == nil || !nd.Voter {
+				continue
+			}
+			if me, ok := n.r.configs.Latest.Nodes[id]; !ok || !me.Voter {
+				c.stats.class("conv-stranded-self-excluded-voter")
+				if c.strandedDeciding {
+					c.fail("converge", "no-leader/voter-excluded-by-own-uncommitted-config", "no leader 50 virtual seconds after heal: node %d is a voter of the committed configuration %v but not of its own latest (uncommitted) configuration %v, so it never campaigns, and it refuses votes to the others", id, cfg, n.r.configs.Latest)
+				}
+				return
+			}
+		}
+		c.fail("converge", "no-leader-after-heal", "no leader among %d running voters (of %d) of %v after the network was healed for 50 virtual seconds", upVoters, voters, cfg)
+		return
+	}
+	if nl > 1 {
+		c.fail("converge", "several-leaders-after-heal", "%d nodes are in Leader state 50 virtual seconds after the network was healed", nl)
+		return
+	}
+	r := ldr.r
+	if r.commitIndex < r.ldr.startIndex {
+		c.fail("converge", "leader-cannot-commit", "leader %d (term %d) has not committed an entry of its own term (commit %d, term starts at %d) although a majority is reachable", ldr.id, r.term, r.commitIndex, r.ldr.startIndex)
+		return
+	}
+	if p := c.probe; p != nil && p.nid == ldr.id && p.inc == ldr.inc {
+		if !taskDone(p.t) {
+			c.fail("converge", "probe-not-committed", "update submitted to leader %d after the network was healed did not complete within 10 virtual seconds", ldr.id)
+			return
+		}
+		if p.t.Err() == nil {
+			c.stats.class("probe-ok")
+		}
+	}
+	for id := range r.configs.Latest.Nodes {
+		n := c.up(id)
+		if n == nil || id == ldr.id {
+			continue
+		}
+		if n.r.lastLogIndex != r.lastLogIndex || n.r.fsm.index != r.fsm.index {
+			c.fail("converge", "node-not-caught-up", "node %d is at last index %d / applied %d, leader %d at %d / %d, 50 virtual seconds after the network was healed", id, n.r.lastLogIndex, n.r.fsm.index, ldr.id, r.lastLogIndex, r.fsm.index)
+			return
+		}
+	}
+	c.stats.class("converged")
 }
